@@ -200,9 +200,8 @@ func (s *Sim) newTask(key uint64, name, class string, parent *Task) *Task {
 	if parent != nil {
 		t.Gen, t.Tag, t.Repos, t.Req = parent.Gen, parent.Tag, parent.Repos, parent.Req
 	}
-	if s.Strat.Kind == "pct" {
-		t.prio = 1000 + s.Sched.Intn(1000000)
-	}
+	// (PCT priorities are drawn by the scheduler when it first sees the task: timer tasks are created outside the baton,
+	// and nothing may be drawn from a stream there)
 	raceDisable()
 	s.mu.Lock()
 	s.tasks = append(s.tasks, t)
@@ -476,6 +475,13 @@ func (s *Sim) Run() (res Result) {
 			return
 		}
 		sort.Slice(run, func(i, j int) bool { return run[i].Key < run[j].Key })
+		if s.Strat.Kind == "pct" {
+			for _, c := range run {
+				if c.prio == 0 {
+					c.prio = 1000 + s.Sched.Intn(1000000)
+				}
+			}
+		}
 		t := s.pick(run, last)
 		s.mu.Lock()
 		t.state = stRunning
